@@ -72,9 +72,12 @@ package tasks
 //@ ghost var tcRetry Array[Int]Int
 //@ ghost var tcIndex Array[Int]execution.ParallelIndex
 //@ ghost var tcOK Array[Int]bool
+//@ ghost var tcErr Array[Int]Int
+//@ ghost var tcTask Array[Int]Task
 //@ extern func iface github.com/furiko-io/furiko/pkg/execution/tasks.TaskClient.CreateIndex
 //@   params recv, ctx, index
-//@   modifies tcN, tcJob, tcRetry, tcIndex, tcOK
+//@   modifies tcN, tcJob, tcRetry, tcIndex, tcOK, tcErr, tcTask
+//@   ensures tcErr == store(old(tcErr), old(tcN), errclass(result1)) && tcTask == store(old(tcTask), old(tcN), result0)
 //@   ensures tcN == old(tcN) + 1 && tcJob == store(old(tcJob), old(tcN), clientJob(recv)) && tcRetry == store(old(tcRetry), old(tcN), index.Retry)
 //@        && tcIndex == store(old(tcIndex), old(tcN), index.Parallel) && tcOK == store(old(tcOK), old(tcN), result1 == nil)
 //@   ensures result1 == nil ==> result0 != nil
